@@ -16,13 +16,7 @@ open BS.Heap BS.Drv
 def kindOf : Char → Kind
   | 't' => .tag | 'r' => .soup | 'c' => .pre | _ => .str
 
-def initHeap (kinds : String) : Heap :=
-  let ks := kinds.toList
-  let n := ks.length
-  { Heap.empty with
-    kind := fun i => match ks[i]? with | some c => kindOf c | none => .str,
-    val := fun i => [i],
-    next := n, cap := n + 1 }
+def initHeap (kinds : String) : Heap := Heap.init (kinds.toList.map kindOf)
 
 def label (h : Heap) (i : Nat) : String :=
   if (h.kind i).isTag then s!"t{i}" else "s" ++ ".".intercalate ((h.val i).map toString)
